@@ -125,7 +125,7 @@ func runCheck(id, tier string) (code int) {
 		return p386, nil
 	}
 	p.Run(ctx)
-	if tier == "thorough" && os.Getenv("VERIF_NO386") == "" {
+	if tier == "thorough" && os.Getenv("VERIF_NO386") == "" && !p.Own386 {
 		// build-config matrix: the same rules on linux/386 (int width, build-tagged files); obligations are merged with a config suffix
 		if q, err := ctx.Load386(); err != nil {
 			r.Fail(id+".infra", "load:linux/386", "-", err.Error())
